@@ -41,6 +41,8 @@ var vxStmts = []vxStmtT{
 	{"g# := func(a int) int { return a }", vxClsStmt},
 	{"// note\nprintln(#)", vxClsStmt},
 	{"func(a int) {\n\t_ = a\n}(#)", vxClsStmt},
+	{"x# := 1 // trailing", vxClsStmt},
+	{"func() int { return # }()", vxClsStmt},
 }
 
 var vxSeps = []string{"\n", "\n\n", "; "}
@@ -64,11 +66,23 @@ func VxC24() {
 	var chunks []string
 	var cls []int
 	src := ""
+	edge := vxParam("EDGE") == 1
+	noFinalNewline := edge && vxBool()
+	if edge && vxBool() {
+		// an import declaration in front of everything else
+		c := "import \"fmt\"\n"
+		chunks = append(chunks, c)
+		cls = append(cls, vxClsDecl)
+		src += c
+	}
 	for i := 0; i < k; i++ {
 		sel := vxConcrete(vxIntRange(0, nT-1))
 		sep := vxSeps[vxConcrete(vxIntRange(0, len(vxSeps)-1))]
 		if i == k-1 {
 			sep = "\n"
+			if noFinalNewline {
+				sep = "" // the source does not end in a newline
+			}
 		}
 		lead := ""
 		if vxParam("LEAD") == 1 && vxBool() {
@@ -80,6 +94,17 @@ func VxC24() {
 		src += c
 	}
 	vxNote("src", src)
+	// "stmt; // comment\nfunc ..." is ambiguous (the comment trails the statement on its line and precedes
+	// the function): such texts are not generated
+	for i := 0; i+1 < len(chunks); i++ {
+		c, n := chunks[i], chunks[i+1]
+		if len(c) >= 2 && c[len(c)-2:] == "; " && len(n) >= 2 && n[:2] == "//" {
+			vxAssume(false)
+		}
+		if len(c) >= 13 && c[len(c)-13:] == "// trailing; " {
+			vxAssume(false) // the separator would be part of the comment
+		}
+	}
 
 	out, err := RearrangeFuncs([]byte(src))
 	vxAssert(err == nil, "RearrangeFuncs failed")
@@ -100,12 +125,12 @@ func VxC24() {
 		for i := 0; i < first; i++ {
 			want += chunks[i]
 		}
-		for i := first; i < k; i++ {
+		for i := first; i < len(chunks); i++ {
 			if cls[i] == vxClsFunc {
 				want += chunks[i]
 			}
 		}
-		for i := first; i < k; i++ {
+		for i := first; i < len(chunks); i++ {
 			if cls[i] != vxClsFunc {
 				want += chunks[i]
 			}
